@@ -589,6 +589,44 @@ def _derived_retort_in_recipe(inner_syms, how, report):
                              f"{case}: load(1, Decimal) gave {res}; the derived retort is strict and must reject it", case)
 
 
+def _delegating_field_types(report):
+    """a chained function bound to a FIELD (by name) is composed exactly once with what serves the field, whatever kind of hint the
+    field has: NewType, Annotated and plain hints are compared (the builtin providers of the first two serve by delegating to
+    the underlying type, which starts a second search for the same field location)"""
+    import dataclasses
+    from typing import Annotated, NewType
+    UserId = NewType("UserId", int)
+    hints = {"plain": int, "NewType": UserId, "Annotated": Annotated[int, "meta"], "NewType of Annotated": NewType("W", Annotated[int, "m"])}
+    for hname, hint in hints.items():
+        cls = dataclasses.make_dataclass("M", [("f", hint), ("other", int)])
+        for chain in (Chain.FIRST, Chain.LAST):
+            for pred_name, mk_pred in (("P.f", lambda cls: P.f), ("P[M].f", lambda cls: P[cls].f)):
+                case = {"part": "delegating_field_types", "hint": hname, "chain": chain.name, "pred": pred_name}
+                report.case(key=("dft", hname, chain.name, pred_name), nontrivial=True, sample=case)
+                report.count("traces_validated_against_impl", 1)
+                calls = []
+
+                def bump(x, calls=calls):
+                    calls.append(x)
+                    return x + 1 if type(x) is int else x
+                try:
+                    with deadline(CASE_DEADLINE):
+                        r = Retort(recipe=[loader(mk_pred(cls), bump, chain), dumper(mk_pred(cls), bump, chain)])
+                        loaded = r.load({"f": 10, "other": 0}, cls)
+                        n_load = len(calls)
+                        dumped = r.dump(cls(10, 0))
+                except Exception as e:  # noqa: BLE001
+                    report.violation({"check": "C09.delegating_field_types", "problem": "failed", "hint": hname},
+                                     f"{case}: {type(e).__name__}: {str(e)[:150]}", case)
+                    continue
+                if (loaded.f, dumped["f"], n_load, len(calls) - n_load) != (11, 11, 1, 1):
+                    report.violation({"check": "C09.delegating_field_types", "problem": "composed_more_than_once",
+                                      "hint": "delegating" if hname != "plain" else "plain"},
+                                     f"loader/dumper({pred_name}, x+1, {chain.name}) on a field typed {hname}: load(10) gives f={loaded.f} "
+                                     f"({n_load} calls), dump(10) gives {dumped['f']} ({len(calls) - n_load} calls); composing exactly once "
+                                     f"gives 11 (1 call each)", case)
+
+
 def _check_options(retort, sc, dt, hist, report):
     try:
         with deadline(CASE_DEADLINE):
@@ -692,6 +730,7 @@ def run(tier):
         for direction in ("load", "dump"):
             compare((), req, direction, report)
     part2(tier, report)
+    _delegating_field_types(report)
     return report
 
 
